@@ -21,7 +21,7 @@
   (default argument / module constant `FILTER_…` / list / a single `str` walked character by
   character; coordinates written through the feature `temp`, other names filtered in place), and
   `Track.smooth`; the module-level state a call can read (`Globals`) is threaded through a
-  `session` of calls.
+  `session` of calls; `filterSeqRepeat`: the same track filtered several times with the same kernel object.
 
 Scalars are polymorphic (`Rat` and `Float` in the driver, an ordered field in the theorems);
 NaN is `none`. A signal is a `List (Option α)`. Core Lean only. -/
@@ -410,6 +410,34 @@ def filterSeqCall [BEq α] (g : Globals) (t : Sigs α) (kernel : SeqArg α) (dim
   match dimNames g dim with
   | none => none
   | some names => some (filterSeq t kernel names, g)
+
+/-- `kernel[i] /= np.sum(np.array(kernel))` done `n` times on the same list -/
+def normaliseN (k : List α) : Nat → List α
+  | 0 => k
+  | n + 1 => normaliseN (normalise k) n
+
+/-- the Python object bound to the caller's `kernel` after `filter_seq(track, kernel, dim)` has returned
+normally: a weight list (not of length one) has been divided by its sum once per dimension; an `int` (the list
+`[1]*n` is local to the function), a Kernel object and a feature name (a fresh list is read at every call) are
+what they were -/
+def seqKernelAfter (kernel : SeqArg α) (names : List String) : SeqArg α :=
+  match kernel with
+  | .k (.list l) => if l.length == 1 then kernel else .k (.list (normaliseN l names.length))
+  | _ => kernel
+
+/-- `filter_seq(track, kernel, dim)` called `n` times in a row on the same track with the same `kernel` and
+`dim` objects (smoothing again what has been smoothed): the track after every call; stops at the first failure.
+The second call finds the scratch feature `temp` in the track and a weight list already normalised. -/
+def filterSeqRepeat [BEq α] (g : Globals) (t : Sigs α) (kernel : SeqArg α) (dim : DimArg) :
+    Nat → List (Option (Except Err (Sigs α) × Globals))
+  | 0 => []
+  | n + 1 =>
+    match dimNames g dim with
+    | none => [none]
+    | some names =>
+      match filterSeq t kernel names with
+      | .error e => [some (.error e, g)]
+      | .ok t' => some (.ok t', g) :: filterSeqRepeat g t' (seqKernelAfter kernel names) dim n
 
 /-- `Track.smooth(width)`: `filter_seq(self, GaussianKernel(width))`; `f`, `support = 3·width`,
 `S = int(support)` describe the Gaussian kernel, on which `setFilterBoundary` is never called. -/
